@@ -207,9 +207,10 @@ theorem real_zero : real Item.zero = 0 := by simp [real, Item.zero, midT]
 
 def PosOK (S : Item → Prop) (p : Nat) : Prop := ∃ it, S it ∧ it.pos = p
 
-/-- `p` is where an error about the token `it` is reported: its position — or, for stray text
-    (`atTextStart`, /repo ac1c871), the position of its first non-blank character -/
-def ErrAt (it : Item) (p : Nat) : Prop := it.pos = p ∨ (atTextStart it).pos = p
+/-- `p` is where an error about the token `it` is reported: its position (a token's position is its
+    END) — or, ONLY for a Text token (stray text between the params of a {call} / the cases of a
+    {switch}: `atTextStart`, /repo ac1c871), the position of its first non-blank character -/
+def ErrAt (it : Item) (p : Nat) : Prop := it.pos = p ∨ (it.typ = .tText ∧ (atTextStart it).pos = p)
 
 theorem atTextStart_pos_le (it : Item) : (atTextStart it).pos ≤ it.pos := by
   unfold atTextStart
@@ -220,10 +221,50 @@ theorem atTextStart_pos_le (it : Item) : (atTextStart it).pos ≤ it.pos := by
     omega
   · exact Nat.le_refl _
 
+/-- where `atTextStart` puts the token: at its first byte that is not a space, tab, CR or LF (counted
+    from the start `pos - len(val)` of the token), inside the token; a token of blanks only stays put -/
+theorem atTextStart_spec (it : Item) :
+    (∃ i, ∃ h : i < it.val.length, (atTextStart it).pos = it.pos + i - it.val.length ∧
+        (it.val[i] ≠ 32 ∧ it.val[i] ≠ 9 ∧ it.val[i] ≠ 13 ∧ it.val[i] ≠ 10) ∧
+        ∀ j (hj : j < i), it.val[j] = 32 ∨ it.val[j] = 9 ∨ it.val[j] = 13 ∨ it.val[j] = 10) ∨
+    (atTextStart it = it ∧ ∀ b ∈ it.val, b = 32 ∨ b = 9 ∨ b = 13 ∨ b = 10) := by
+  unfold atTextStart
+  split
+  · rename_i i h
+    obtain ⟨hi, hp, hb⟩ := List.findIdx?_eq_some_iff_getElem.mp h
+    left
+    refine ⟨i, hi, rfl, ?_, ?_⟩
+    · have hp' : ((¬it.val[i] = 32 ∧ ¬it.val[i] = 9) ∧ ¬it.val[i] = 13) ∧ ¬it.val[i] = 10 := by
+        simpa [Bool.or_eq_true, not_or] using hp
+      exact ⟨hp'.1.1.1, hp'.1.1.2, hp'.1.2, hp'.2⟩
+    · intro j hj
+      have h1 : ¬it.val[j] = 32 → ¬it.val[j] = 9 → ¬it.val[j] = 13 → it.val[j] = 10 := by
+        simpa [Bool.or_eq_true, or_assoc] using hb j hj
+      by_cases a : it.val[j] = 32
+      · exact Or.inl a
+      by_cases b : it.val[j] = 9
+      · exact Or.inr (Or.inl b)
+      by_cases c : it.val[j] = 13
+      · exact Or.inr (Or.inr (Or.inl c))
+      · exact Or.inr (Or.inr (Or.inr (h1 a b c)))
+  · rename_i h
+    right
+    refine ⟨rfl, ?_⟩
+    intro b hb
+    have h1 : ¬b = 32 → ¬b = 9 → ¬b = 13 → b = 10 := by
+      simpa [Bool.or_eq_true, or_assoc] using List.findIdx?_eq_none_iff.mp h b hb
+    by_cases a : b = 32
+    · exact Or.inl a
+    by_cases b' : b = 9
+    · exact Or.inr (Or.inl b')
+    by_cases c : b = 13
+    · exact Or.inr (Or.inr (Or.inl c))
+    · exact Or.inr (Or.inr (Or.inr (h1 a b' c)))
+
 theorem ErrAt.le {it : Item} {p : Nat} (h : ErrAt it p) : p ≤ it.pos := by
   rcases h with h | h
   · omega
-  · have := atTextStart_pos_le it; omega
+  · have := atTextStart_pos_le it; have := h.2; omega
 
 theorem ErrAt.zero {p : Nat} (h : ErrAt Item.zero p) : p = 0 := by
   have := h.le
@@ -531,10 +572,11 @@ theorem unexpected_safe' {α : Type} {EL : Lvl} {S : Item → Prop} {st : PState
 
 /-- `t.unexpected(atTextStart(token), ...)`: reports where the text of `tok` begins -/
 theorem unexpected_textStart_safe {α : Type} {EL : Lvl} {S : Item → Prop} {st : PState} {tok : Item} {Q : α → PState → Prop}
-    (ht : S tok) (hv : EL.lex → valid tok) : PSafe AP EL S (unexpected (atTextStart tok) : P α) st Q := by
+    (ht : S tok) (hv : EL.lex → valid tok) (htx : tok.typ = .tText) :
+    PSafe AP EL S (unexpected (atTextStart tok) : P α) st Q := by
   unfold PSafe
   rw [unexpected_eq]
-  exact ⟨⟨tok, ht, Or.inr rfl⟩, fun hl => ⟨tok, ht, hv hl, Or.inr rfl⟩⟩
+  exact ⟨⟨tok, ht, Or.inr ⟨htx, rfl⟩⟩, fun hl => ⟨tok, ht, hv hl, Or.inr ⟨htx, rfl⟩⟩⟩
 
 /-- `t.unexpected(token, ...)` on the token `next` has just returned -/
 theorem unexpected_safe {α : Type} {EL : Lvl} {S : Item → Prop} {st : PState} {tok : Item} {Q : α → PState → Prop}
